@@ -37,6 +37,13 @@ def pairings(outs, ins, rng, limit):
                     res.append([[o, i] for o, i in zip(os_, is_)])
     if len(res) > limit:
         res = [res[0]] + rng.sample(res[1:], limit - 1)
+    # a feed-through port (input that is an output) may be the state OUTPUT of one pair and the state INPUT of another
+    thru = [x for x in outs if x in ins]
+    for t in thru:
+        o2 = [o for o in outs if o != t]
+        i2 = [i for i in ins if i != t]
+        if o2 and i2:
+            res.append([[rng.choice(o2), t], [t, rng.choice(i2)]])
     return res
 
 
@@ -89,13 +96,14 @@ def cases(ctx):
             nin = len([t for t in p["ty"] if t == "input"])
             if nin * n + nf > 12:
                 n = 1
-            yield {"op": "sequential_unroll", "c": p, "n": n, "iv": iv, "afo": r.random() < 0.5, "ru": r.random() < 0.6, "src": "SEQ"}
+            yield {"op": "sequential_unroll", "c": p, "n": n, "iv": iv, "afo": r.random() < 0.5, "ru": r.random() < 0.6,
+                   "ign": r.choice(["clk", "clk", ["clk"], None]), "src": "SEQ"}
 
 
 def run_case(case, ctx):
     import circuitgraph as cg
 
-    c = build(case["c"])
+    c = build(case["c"], case.get("ord"))
     exc, uc, iomap = "", None, {}
     if case["op"] == "unroll":
         try:
@@ -108,7 +116,7 @@ def run_case(case, ctx):
     iv = case["iv"]
     arg = iv if (iv is None or isinstance(iv, str)) else {k: v for k, v in iv}
     try:
-        uc, iomap = cg.tx.sequential_unroll(c, case["n"], "d", "q", ignore_pins="clk", add_flop_outputs=case["afo"],
+        uc, iomap = cg.tx.sequential_unroll(c, case["n"], "d", "q", ignore_pins=case.get("ign", "clk"), add_flop_outputs=case["afo"],
                                             initial_values=arg, remove_unloaded=case["ru"])
     except Exception as e:
         exc = type(e).__name__
